@@ -286,3 +286,24 @@ Proof.
     try (inversion H; subst; reflexivity); try (inversion H; subst; congruence).
   all: try (destruct k; discriminate).
 Qed.
+
+(* the embeddings succeed on ex1 and their hypotheses are met *)
+Example ex1_exprloc : exists bs fx, write_exprloc true enc4 (Some tbl) 100 ex1 = Ok (bs, fx) /\ blen bs = 19.
+Proof. eexists. eexists. split; vm_compute; reflexivity. Qed.
+Example ex1_loc : exists bs fx, write_loc_expression true enc4 (Some tbl) 18 ex1 = Ok (bs, fx) /\ blen bs = 20.
+Proof. eexists. eexists. split; vm_compute; reflexivity. Qed.
+Example ex1_cfi : exists bs fx,
+  write_cfi_expression false enc4 64 [WoRegOffset 7 8; WoDeref false; WoSkip 3] = Ok (bs, fx) /\ blen bs = 7.
+Proof. eexists. eexists. split; vm_compute; reflexivity. Qed.
+
+(* the fix-up of ex2 resolved against a table in which entry 2 of unit 0 sits at .debug_info offset 31 *)
+Example ex2_fixed_up :
+  apply_fixups true [tbl] 0 [x9a; x00; x00; x00; x00; x00; x00; x00; x00; xa4; x0c; x02; x01; x02]
+               [{| fx_offset := 1; fx_size := 8; fx_unit := 0; fx_entry := 2 |}] =
+  Ok [x9a; x00; x00; x00; x00; x00; x00; x00; x1f; xa4; x0c; x02; x01; x02].
+Proof. vm_compute. reflexivity. Qed.
+
+(* a displacement that does not fit i16 *)
+Example far_branch :
+  write_op true enc4 None false [0; 3; 40003] 0 (WoSkip 2) = Err WValueTooLarge.
+Proof. vm_compute. reflexivity. Qed.
